@@ -1463,6 +1463,17 @@ fn gen_threads(rec: &mut Rec, rng: &mut Rng, cases: u64, thorough: bool) {
         let obs = run_schedule(rec, &scripts, &[0, 1, 0, 1, 0, 0, 1, 1]);
         check_solo(rec, &scripts, &obs, "schedule A.req B.req A.copy");
     }
+    // the same shape for interning: B's (large, storage-growing) intern request falls between A's
+    // request and A's copy; A then writes its string by id
+    for big in [64usize, 4096, 65536, 1 << 20] {
+        let scripts = vec![
+            vec!["init c0".to_string(), "internreq 5".to_string(), format!("interncopy {}", hex0(b"hello")), "w istr 0".to_string(), "out?".to_string()],
+            vec!["init c0".to_string(), format!("internreq {}", big), format!("interncopy {}", hex0(&[b'z'; 48])), "w istr 0".to_string(), "fin".to_string()],
+        ];
+        rec.case("c14");
+        let obs = run_schedule(rec, &scripts, &[0, 1, 0, 1, 0, 0, 0, 1, 1, 1]);
+        check_solo(rec, &scripts, &obs, "schedule A.internreq B.internreq A.interncopy");
+    }
     // random schedules
     for _ in 0..cases {
         let nt = if rng.chance(1, 3) { 3 } else { 2 };
